@@ -122,20 +122,28 @@ void ep3_norm_sim(ep3_t *r, const ep3_t *t, int n) {
 			fp3_null(a[i]);
 			fp3_new(a[i]);
 			fp3_copy(a[i], t[i]->z);
+			if (ep3_is_infty(t[i])) {
+				/* Keep the point at infinity out of the inversion. */
+				fp3_set_dig(a[i], 1);
+			}
 		}
 
 		fp3_inv_sim(a, (const fp3_t *)a, n);
 
 		for (i = 0; i < n; i++) {
+			if (ep3_is_infty(t[i])) {
+				ep3_set_infty(r[i]);
+				continue;
+			}
 			fp3_copy(r[i]->x, t[i]->x);
 			fp3_copy(r[i]->y, t[i]->y);
-			if (!ep3_is_infty(t[i])) {
-				fp3_copy(r[i]->z, a[i]);
-			}
+			fp3_copy(r[i]->z, a[i]);
 		}
 #if EP_ADD == PROJC || EP_ADD == JACOB || !defined(STRIP)
 		for (i = 0; i < n; i++) {
-			ep3_norm_imp(r[i], r[i], 1);
+			if (!ep3_is_infty(r[i])) {
+				ep3_norm_imp(r[i], r[i], 1);
+			}
 		}
 #endif /* EP_ADD == PROJC */
 	}
